@@ -130,6 +130,8 @@ def sweep_db(path, ps):
     con.execute("CREATE INDEX wr_v ON wr(v)")          # its entries are (v, k): a corrupt one may lack the key part
     for i, z in enumerate(lasts[1:]):
         con.execute("INSERT INTO wr VALUES(?,?)", (z, i))
+    con.execute("CREATE TABLE emp(a, b)")              # no rows: its root page is a header followed by zeros
+    con.execute("CREATE INDEX emp_a ON emp(a)")
     con.execute("CREATE TABLE big(id INTEGER PRIMARY KEY, t)")
     con.execute("INSERT INTO big VALUES(1, ?)", ("o" * (ps * 2 + 50),))
     con.execute("INSERT INTO big VALUES(2, 'small')")
